@@ -124,7 +124,15 @@ def judge (ops outs : List String) : String :=
       match parseOp? p.1 with
       | some op => some (op, parseOut op p.2)
       | none => none
-    let rec go (r : Ref) (ghost : List (Nat × Smp)) (delEver : List (Nat × Smp)) (phase : Nat)
+    -- every (series, max time of its m-mapped chunks) that some restart of this history reported
+    let allMm : List (Nat × Int) := ops.flatMap fun l =>
+      match toks l with
+      | ["reopen", oracle] => if oracle = "-" then [] else
+          (oracle.splitOn ",").filterMap fun p => match p.splitOn ":" with
+            | [a, b] => do pure (← a.toNat?, ← b.toInt?)
+            | _ => none
+      | _ => []
+    let rec go (r : Ref) (ghost : List (Nat × Smp)) (delEver : List (Nat × Smp)) (phase : Nat) (phaseC : Nat)
         (known : Option String) (h : List (Op × Out)) (k : Nat) : String :=
       -- phase: 0 nothing, 1 a delete happened, 2 … then CleanTombstones, 3 … then a restart
       match h with
@@ -158,7 +166,13 @@ def judge (ops outs : List String) : String :=
             | .cleantomb => if phase = 1 then 2 else phase
             | .reopen => if phase = 2 then 3 else phase
             | _ => phase
-          go r' ghost' delEver' phase' known rest (k + 1)
+          -- phaseC: 0 nothing, 1 a delete happened, 2 … then Compact, 3 … then a restart
+          let phaseC' := match op with
+            | .del _ _ _ => if phaseC = 0 then 1 else phaseC
+            | .compact => if phaseC = 1 then 2 else phaseC
+            | .reopen => if phaseC = 2 then 3 else phaseC
+            | _ => phaseC
+          go r' ghost' delEver' phase' phaseC' known rest (k + 1)
         | none =>
           match op, o with
           | .q a b, .rows got =>
@@ -168,18 +182,28 @@ def judge (ops outs : List String) : String :=
               -- F28: adopt the implementation's view of these samples and continue
               let r' : Ref := { r with store := r.store.map fun p => (p.1, p.2.filter fun x => !missing.contains (p.1, x)) }
               let msg := s!"violation query-mismatch kind=identical-reappend-after-delete step={k} range=[{a},{b}] missing={missing.map fun m => s!"s{m.1}@{m.2.t}"}"
-              go r' ghost delEver phase (some (known.getD msg)) rest (k + 1)
+              go r' ghost delEver phase phaseC (some (known.getD msg)) rest (k + 1)
             else if missing.isEmpty ∧ !extra.isEmpty ∧ phase = 3 ∧ extra.all (fun m => delEver.contains m) then
               -- F30: deleted samples came back after CleanTombstones + restart; adopt and continue
               let r' : Ref := extra.foldl (fun (r : Ref) m =>
                 let xs := r.get m.1
                 r.set m.1 ((xs.filter fun x => decide (x.t < m.2.t)) ++ [m.2] ++ (xs.filter fun x => decide (m.2.t < x.t)))) r
               let msg := s!"violation query-mismatch kind=deleted-back-after-cleantomb-restart step={k} range=[{a},{b}] extra={extra.map fun m => s!"s{m.1}@{m.2.t}"}"
-              go r' ghost (delEver.filter fun m => !extra.contains m) phase (some (known.getD msg)) rest (k + 1)
+              go r' ghost (delEver.filter fun m => !extra.contains m) phase phaseC (some (known.getD msg)) rest (k + 1)
+            else if missing.isEmpty ∧ !extra.isEmpty ∧ phaseC = 3 ∧
+                extra.all (fun m => delEver.contains m && allMm.any (fun q => q.1 == m.1 && decide (m.2.t ≤ q.2))) then
+              -- F37: deleted samples that sat in an m-mapped head chunk came back after delete, Compact and a
+              -- restart (the chunk survives in its chunks_head file, its tombstone does not survive the
+              -- checkpoint); adopt and continue
+              let r' : Ref := extra.foldl (fun (r : Ref) m =>
+                let xs := r.get m.1
+                r.set m.1 ((xs.filter fun x => decide (x.t < m.2.t)) ++ [m.2] ++ (xs.filter fun x => decide (m.2.t < x.t)))) r
+              let msg := s!"violation query-mismatch kind=deleted-mmapped-back-after-compact-restart step={k} range=[{a},{b}] extra={extra.map fun m => s!"s{m.1}@{m.2.t}"}"
+              go r' ghost (delEver.filter fun m => !extra.contains m) phase phaseC (some (known.getD msg)) rest (k + 1)
             else
               s!"violation query-mismatch kind=other step={k} range=[{a},{b}] got={renderOut o} want={renderQuery want}"
           | _, _ => s!"violation query-mismatch kind=other step={k} got={renderOut o}"
-    go {} [] [] 0 none typed 0
+    go {} [] [] 0 0 none typed 0
 
 def suite : Suite := { name := "db", model := model, judge := judge }
 
